@@ -746,25 +746,122 @@ Section Walk.
     - exists (x_d5 x). reflexivity.
   Qed.
 
+  (* ---------------- in-block comments: read outside any note, header and head ---------------- *)
+  Definition out_mode (st : state) : Prop := s_in_note st = false /\ s_in_head st = false /\ body_mode st.
+
+  Lemma out_add_tag (n : string) v st : out_mode st -> add_tag n v st = st.
+  Proof.
+    intros (Hn & Hh & Hc & Hi & Hq). unfold add_tag. destruct (forallb is_digit v); [reflexivity|].
+    unfold tag_scope. rewrite Hc, Hi, Hn. reflexivity.
+  Qed.
+  Lemma out_add_prop k v st : out_mode st -> add_prop k v st = st.
+  Proof.
+    intros (Hn & Hh & Hc & Hi & Hq). unfold add_prop. rewrite Hq. unfold prop_scope. rewrite Hh, Hi, Hn. reflexivity.
+  Qed.
+  Lemma enter_id_out txt st : out_mode st -> enter_id txt st = Ok st.
+  Proof. intros (Hn & _). unfold enter_id. now rewrite Hn. Qed.
+  Lemma enter_date_out kids tk0 st : child_tok "DATE" kids = Some tk0 -> out_mode st -> enter_date kids st = Ok st.
+  Proof. intros Hk (Hn & Hh & Hc & Hi & Hq). unfold enter_date. rewrite Hk, Hn, Hi, Hc. reflexivity. Qed.
+  Lemma walk_id_out l inner st ns f :
+    out_mode st -> walk inner st (ns, f) = Ok (st, (ns, f)) -> walk (t_id l inner) st (ns, f) = Ok (st, (ns, f)).
+  Proof. intros Hm Hw. eapply walk_id_node; [apply enter_id_out; exact Hm|exact Hw]. Qed.
+
+  Lemma walk_word_out l w st ns f :
+    out_mode st -> walk (tree_of_word l w) st (ns, f) = Ok (st, (ns, f)).
+  Proof.
+    intros Hm. destruct w as [s|k s|s|k v|s|z]; cbn [tree_of_word]; apply walk_uw.
+    - unfold nd, tk. inert. erewrite walk_id_out; [reflexivity|exact Hm|apply walk_tok].
+    - unfold nd at 1. inert.
+      destruct k; cbn [tag_rule tag_tok tag_name]; unfold nd, tk, tks; rewrite walk_node;
+        unfold FileListener.enter, FileListener.exit_; cls; unfold tag1, child1_text;
+        rewrite text_id; cbn [bind walk_list app]; rewrite out_add_tag by exact Hm; tokstep;
+        (erewrite walk_id_out; [|exact Hm|apply walk_tok]);
+        cbn [bind fst snd]; now rewrite push_none.
+    - unfold nd, tk, tks. rewrite walk_node. unfold FileListener.enter, FileListener.exit_. cls.
+      unfold tag1, child1_text.
+      replace (text_of (Node (S "id_group") l [t_id l (Tok (S "ID") s)])) with s by (cbn; now rewrite !app_nil_r).
+      cbn [bind walk_list app]. rewrite out_add_tag by exact Hm. tokstep. inert.
+      erewrite walk_id_out; [|exact Hm|apply walk_tok].
+      cbn [bind fst snd]. tokstep. now rewrite push_none.
+    - unfold nd at 1. inert. unfold nd, tk, tks. rewrite walk_node. unfold FileListener.enter, FileListener.exit_. cls.
+      replace (child_rule "id" [t_id l (Tok (S "ID") k); Tok (S "COLON") (S ":"); Tok (S "COLON") (S ":");
+                               Node (S "simple_prop_value") l [t_id l (Tok (S "ID") v)]])
+        with (Some (t_id l (Tok (S "ID") k))) by reflexivity.
+      replace (child_rule "simple_prop_value" [t_id l (Tok (S "ID") k); Tok (S "COLON") (S ":"); Tok (S "COLON") (S ":");
+                               Node (S "simple_prop_value") l [t_id l (Tok (S "ID") v)]])
+        with (Some (Node (S "simple_prop_value") l [t_id l (Tok (S "ID") v)])) by reflexivity.
+      rewrite text_id.
+      replace (text_of (Node (S "simple_prop_value") l [t_id l (Tok (S "ID") v)])) with v by (cbn; now rewrite !app_nil_r).
+      cbn [bind walk_list]. rewrite out_add_prop by exact Hm.
+      erewrite walk_id_out; [|exact Hm|apply walk_tok]. cbn [bind fst snd]. tokstep. tokstep. inert.
+      erewrite walk_id_out; [|exact Hm|apply walk_tok]. cbn [bind fst snd]. now rewrite push_none.
+    - unfold nd at 1. inert. erewrite walk_id_out; [reflexivity|exact Hm|].
+      unfold nd, tk. rewrite walk_node. unfold FileListener.enter, FileListener.exit_. cls.
+      erewrite enter_date_out; [|reflexivity|exact Hm]. cbn [bind walk_list]. tokstep. now rewrite push_none.
+    - unfold nd at 1. inert. erewrite walk_id_out; [reflexivity|exact Hm|].
+      unfold nd, tk. inert. tokstep. reflexivity.
+  Qed.
+  Lemma walk_words_out l ws : forall st ns f,
+    out_mode st -> walk_list (map (tree_of_word l) ws) st (ns, f) = Ok (st, (ns, f)).
+  Proof.
+    induction ws as [|w ws IH]; intros st ns f Hm; [reflexivity|].
+    cbn [map walk_list]. rewrite walk_word_out by exact Hm. cbn [bind fst snd]. now apply IH.
+  Qed.
+
+  (* an in-block comment: no note, and the state between items is what it was (up to the per-note slots, which the
+     next item resets anyway) *)
+  Lemma walk_comment l ws st t0 t1 t2 t3 t4 p0 p1 p2 p3 p4 d0 d1 d2 d3 d4 key ns f :
+    let ot := [t0; t1; t2; t3; t4] in let op := [p0; p1; p2; p3; p4] in let od := [d0; d1; d2; d3; d4] in
+    item_entry st ot op od key ->
+    exists st', walk (tree_of_elem l (BComment ws)) st (ns, f) = Ok (st', (ns, f)) /\
+                item_entry st' ot op od key /\ same_frame st st'.
+  Proof.
+    cbv zeta. intros [Hb Hh Hn (t5 & Ht) (p5 & Hp) (d5 & Hd) Hk Hpr Hst].
+    set (ot := [t0; t1; t2; t3; t4]). set (op := [p0; p1; p2; p3; p4]). set (od := [d0; d1; d2; d3; d4]).
+    assert (L1 : length ot = 5%nat) by reflexivity. assert (L2 : length op = 5%nat) by reflexivity.
+    assert (L3 : length od = 5%nat) by reflexivity.
+    cbn [tree_of_elem]. unfold nd at 1. rewrite walk_node. unfold FileListener.enter at 1, FileListener.exit_ at 1. cls.
+    rewrite (reset_canon st ot op od t5 p5 d5) by assumption. rewrite Hn, Hpr, Hst. cbn [bind walk_list].
+    set (st1 := canon st ot op od (x_reset false default_priority (S "o"))).
+    assert (Hm : out_mode st1) by (unfold out_mode, st1; cbn; repeat split; try assumption; apply Hb).
+    unfold nd at 1. rewrite walk_node. unfold FileListener.enter at 1, FileListener.exit_ at 1. cls. cbn [bind walk_list].
+    unfold tks at 1. tokstep. unfold tree_of_words, nd at 1. inert. rewrite walk_words_out by exact Hm. cbn [bind fst snd].
+    unfold tks at 1. tokstep. rewrite push_none. cbn [bind fst snd]. rewrite push_none.
+    eexists. split; [reflexivity|]. destruct Hb as (Hc & Hi & Hq). split.
+    - constructor; cbn; try assumption; try reflexivity.
+      + repeat split; assumption.
+      + exists []. reflexivity.
+      + exists []. reflexivity.
+      + exists None. reflexivity.
+    - repeat split; cbn; try reflexivity. now rewrite Hc.
+  Qed.
+
+  Definition valid_elem (e : belem) : Prop := match e with BItem it => valid_item it | BComment _ => True end.
+
   Lemma walk_items t0 t1 t2 t3 t4 p0 p1 p2 p3 p4 d0 d1 d2 d3 d4 key its :
     let ot := [t0; t1; t2; t3; t4] in let op := [p0; p1; p2; p3; p4] in let od := [d0; d1; d2; d3; d4] in
     forall l st ns f,
-    item_entry st ot op od key -> Forall valid_item its ->
+    item_entry st ot op od key -> Forall valid_elem its ->
+
     exists st', walk_list (tree_of_items l its) st (ns, f) =
                 Ok (st', (rev (spec_items today ot op od key l its) ++ ns, f)) /\
                 item_entry st' ot op od key /\ same_frame st st'.
   Proof.
-    cbv zeta. induction its as [|it its IH]; intros l st ns f He Hv.
+    cbv zeta. induction its as [|e its IH]; intros l st ns f He Hv.
     - exists st. split; [reflexivity|]. split; [exact He|apply same_frame_refl].
-    - inversion Hv as [|? ? Hv1 Hv2]; subst.
-      destruct (walk_item l it st t0 t1 t2 t3 t4 p0 p1 p2 p3 p4 d0 d1 d2 d3 d4 key ns f He Hv1) as (x' & Hw).
-      cbn [tree_of_items walk_list spec_items]. rewrite Hw. cbn [bind fst snd].
-      edestruct (IH (Datatypes.S l)) as (st' & Hw' & He' & Hf'); [|exact Hv2|].
-      { apply item_entry_close; try reflexivity. exact He. }
-      exists st'. split; [|split].
-      + rewrite Hw'. cbn [rev]. rewrite <- app_assoc. reflexivity.
-      + exact He'.
-      + eapply same_frame_trans; [apply same_frame_canon|exact Hf'].
+    - inversion Hv as [|? ? Hv1 Hv2]; subst. destruct e as [it|ws].
+      + destruct (walk_item l it st t0 t1 t2 t3 t4 p0 p1 p2 p3 p4 d0 d1 d2 d3 d4 key ns f He Hv1) as (x' & Hw).
+        cbn [tree_of_items tree_of_elem walk_list spec_items]. rewrite Hw. cbn [bind fst snd].
+        edestruct (IH (Datatypes.S l)) as (st' & Hw' & He' & Hf'); [|exact Hv2|].
+        { apply item_entry_close; try reflexivity. exact He. }
+        exists st'. split; [|split].
+        * rewrite Hw'. cbn [rev]. rewrite <- app_assoc. reflexivity.
+        * exact He'.
+        * eapply same_frame_trans; [apply same_frame_canon|exact Hf'].
+      + destruct (walk_comment l ws st t0 t1 t2 t3 t4 p0 p1 p2 p3 p4 d0 d1 d2 d3 d4 key ns f He) as (st1 & Hw & He1 & Hf1).
+        cbn [tree_of_items walk_list spec_items]. rewrite Hw. cbn [bind fst snd].
+        destruct (IH (Datatypes.S l) st1 ns f He1 Hv2) as (st' & Hw' & He' & Hf').
+        exists st'. split; [exact Hw'|]. split; [exact He'|]. eapply same_frame_trans; [exact Hf1|exact Hf'].
   Qed.
 
   (* ---------------- blocks ---------------- *)
@@ -799,7 +896,7 @@ Section Walk.
 
   Lemma walk_block t0 t1 t2 t3 t4 p0 p1 p2 p3 p4 d0 d1 d2 d3 d4 b l st ns f :
     let ot := [t0; t1; t2; t3; t4] in let op := [p0; p1; p2; p3; p4] in let od := [d0; d1; d2; d3; d4] in
-    sec_state st ot op od -> Forall valid_item b ->
+    sec_state st ot op od -> Forall valid_elem b ->
     let P := block_parent st in let b0 := count_of (P ++ [0%nat]) (s_counts st) in
     exists st', walk (tree_of_block l b) st (ns, f) =
                 Ok (st', (rev (spec_items today ot op od (P ++ [0%nat; b0]) l b) ++ ns, f)) /\
@@ -834,7 +931,7 @@ Section Walk.
   Lemma walk_blocks t0 t1 t2 t3 t4 p0 p1 p2 p3 p4 d0 d1 d2 d3 d4 bs :
     let ot := [t0; t1; t2; t3; t4] in let op := [p0; p1; p2; p3; p4] in let od := [d0; d1; d2; d3; d4] in
     forall l st ns f,
-    sec_state st ot op od -> Forall (Forall valid_item) bs ->
+    sec_state st ot op od -> Forall (Forall valid_elem) bs ->
     let P := block_parent st in let b0 := count_of (P ++ [0%nat]) (s_counts st) in
     exists st', walk_list (tree_of_blocks l bs) st (ns, f) =
                 Ok (st', (rev (spec_blocks today ot op od P b0 l bs) ++ ns, f)) /\
@@ -1179,14 +1276,14 @@ Section Walk.
   Fixpoint valid_sec (lvl : nat) (s : gsec) : Prop :=
     match s with
     | GSec title bs subs =>
-        (lvl < 4)%nat /\ Forall valid_mword title /\ Forall (Forall valid_item) bs /\
+        (lvl < 4)%nat /\ Forall valid_mword title /\ Forall (Forall valid_elem) bs /\
         (fix go (ss : list gsec) : Prop := match ss with [] => True | s' :: r => valid_sec (Datatypes.S lvl) s' /\ go r end) subs
     end.
   Fixpoint valid_secs (lvl : nat) (ss : list gsec) : Prop :=
     match ss with [] => True | s' :: r => valid_sec lvl s' /\ valid_secs lvl r end.
   Lemma valid_sec_eq lvl title bs subs :
     valid_sec lvl (GSec title bs subs) <->
-    (lvl < 4)%nat /\ Forall valid_mword title /\ Forall (Forall valid_item) bs /\ valid_secs (Datatypes.S lvl) subs.
+    (lvl < 4)%nat /\ Forall valid_mword title /\ Forall (Forall valid_elem) bs /\ valid_secs (Datatypes.S lvl) subs.
   Proof.
     cbn [valid_sec]. assert (E : forall ss, (fix go (ss : list gsec) : Prop :=
                  match ss with [] => True | s' :: r => valid_sec (Datatypes.S lvl) s' /\ go r end) ss <-> valid_secs (Datatypes.S lvl) ss).
@@ -1275,7 +1372,7 @@ Section Walk.
   (* the lemmas above, for contexts given as lists of the right length *)
   Lemma walk_blocks_g ot op od bs l st ns f :
     length ot = 5%nat -> length op = 5%nat -> length od = 5%nat ->
-    sec_state st ot op od -> Forall (Forall valid_item) bs ->
+    sec_state st ot op od -> Forall (Forall valid_elem) bs ->
     let P := block_parent st in let b0 := count_of (P ++ [0%nat]) (s_counts st) in
     exists st', walk_list (tree_of_blocks l bs) st (ns, f) =
                 Ok (st', (rev (spec_blocks today ot op od P b0 l bs) ++ ns, f)) /\
@@ -1494,7 +1591,7 @@ Section Walk.
   Lemma items_keys ot op od key l its :
     StronglySorted nle (spec_items today ot op od key l its) /\ keys_are (fun k => k = key) (spec_items today ot op od key l its).
   Proof.
-    revert l. induction its as [|it its IH]; intros l; cbn [spec_items]; [split; constructor|].
+    revert l. induction its as [|[it|ws] its IH]; intros l; cbn [spec_items]; [split; constructor| |apply IH].
     destruct (IH (Datatypes.S l)) as (H1 & H2). split.
     - constructor; [exact H1|]. eapply Forall_impl; [|exact H2]. intros n E. unfold nle. cbn. rewrite E. apply key_leb_refl.
     - constructor; [reflexivity|exact H2].
@@ -1582,7 +1679,7 @@ Section Walk.
 
   (* ---------------- whole pages ---------------- *)
   Definition valid_page (pg : apage) : Prop :=
-    Forall valid_mword (pg_title pg) /\ Forall (Forall valid_item) (pg_blocks pg) /\
+    Forall valid_mword (pg_title pg) /\ Forall (Forall valid_elem) (pg_blocks pg) /\
     valid_secs 1 (pg_h2s pg) /\ valid_secs 0 (pg_h1s pg).
 
   Lemma upd_0 {A} (f : A -> A) x l : upd 0 f (x :: l) = f x :: l.
@@ -1723,8 +1820,10 @@ Proof.
   intros H. induction l as [|x l IH]; intros E; [constructor|].
   cbn in E. apply andb_prop in E. destruct E. constructor; auto.
 Qed.
-Lemma valid_blocksb_sound bs : forallb (forallb valid_itemb) bs = true -> Forall (Forall valid_item) bs.
-Proof. apply forallb_Forall. intros b. apply forallb_Forall. apply valid_itemb_sound. Qed.
+Lemma valid_elemb_sound e : valid_elemb e = true -> valid_elem e.
+Proof. destruct e as [it|ws]; [apply valid_itemb_sound|intros _; exact I]. Qed.
+Lemma valid_blocksb_sound bs : forallb (forallb valid_elemb) bs = true -> Forall (Forall valid_elem) bs.
+Proof. apply forallb_Forall. intros b. apply forallb_Forall. apply valid_elemb_sound. Qed.
 
 Lemma valid_secb_sound : forall s lvl, valid_secb lvl s = true -> valid_sec lvl s.
 Proof.
